@@ -3,7 +3,8 @@
 # property only (quick tier); meant for `vp run -- tools/seedown.sh` (snapshot of /verif).
 cd "$(dirname "$0")/.."
 P=${1:-4}; shift
-ids="$@"; [ -z "$ids" ] && ids=$(ls seeded | grep -E "^C[0-9][0-9]-[a-z]$")
+# (changes that a later fix: commit made harmless are marked `superseded` in their meta.json and left out)
+ids="$@"; [ -z "$ids" ] && ids=$(ls seeded | grep -E "^C[0-9][0-9]-[a-z]$" | while read s; do grep -q '"superseded"' seeded/$s/meta.json || echo $s; done)
 ./setup.sh > /dev/null 2>&1
 mkdir -p seedout; export SEED_OUT=$PWD/seedout
 echo $ids | tr ' ' '\n' | xargs -P $P -I{} sh -c 'id={}; python3 tools/seedrun.py $id ${id%%-*} > seedout/$id.own.log 2>&1'
